@@ -15,7 +15,7 @@ func toValid(s string) string { return strings.ToValidUTF8(s, "?") }
 //     coincide once decoded when a value contains '/' ("a/b" vs "a","b");
 //   - parameter-free operations (POST /notes, PUT /notes, POST /forms) that consume several media types,
 //     called with one and then with another;
-//   - a parameter-free upload (POST /docs).
+//   - a parameter-free upload (POST /uploads; /docs is the documentation UI of middleware.Serve).
 func apiFiles(base string) API {
 	return API{Base: base, Ops: []Op{
 		{ID: "getFile", Method: "GET", Template: []Seg{lit("files"), ph("name")}, Produces: []string{mJSON}, Success: 200,
@@ -32,7 +32,7 @@ func apiFiles(base string) API {
 			Params: []Param{sp("q", "query", "string"), mp("multi", "query")}},
 		{ID: "postForm", Method: "POST", Template: []Seg{lit("forms")}, Consumes: mForm, Alt: []string{mMulti}, Produces: []string{mJSON}, Success: 201,
 			Params: []Param{sp("f", "form", "string"), mp("fm", "form"), sp("fn", "form", "integer")}},
-		{ID: "upDoc", Method: "POST", Template: []Seg{lit("docs")}, Consumes: mMulti, Produces: []string{mJSON}, Success: 200,
+		{ID: "upDoc", Method: "POST", Template: []Seg{lit("uploads")}, Consumes: mMulti, Produces: []string{mJSON}, Success: 200,
 			Params: []Param{sp("f", "multiform", "string"), {Name: "doc", Loc: "file", Kind: "file", Type: "file"}}},
 	}}
 }
